@@ -147,8 +147,16 @@ func ValidateAttribute(a PathAttributeInterface, rfs map[Family]BGPAddPathMode, 
 			return res == 0xe0
 		}
 		addr := net.IP(p.Value.AsSlice())
-		// check IP address represents host address
-		if !loopbackNextHopAllowed && p.Value.IsLoopback() || isZero(addr) || isClassDorE(addr) {
+		if !p.Value.Is4() {
+			// RFC 7606 Section 7.3: the NEXT_HOP attribute of an UPDATE has
+			// length 4; IPv6 next hops travel in MP_REACH_NLRI.
+			data, _ := a.Serialize()
+			e := NewMessageErrorWithErrorHandling(eCode, BGP_ERROR_SUB_ATTRIBUTE_LENGTH_ERROR, data, getErrorHandlingFromPathAttribute(p.GetType()), nil, "nexthop length isn't correct")
+			if e.(*MessageError).Stronger(strongestError) {
+				strongestError = e
+			}
+		} else if !loopbackNextHopAllowed && p.Value.IsLoopback() || isZero(addr) || isClassDorE(addr) {
+			// check IP address represents host address
 			eMsg := "invalid nexthop address"
 			data, _ := a.Serialize()
 			e := NewMessageErrorWithErrorHandling(eCode, eSubCodeBadNextHop, data, getErrorHandlingFromPathAttribute(p.GetType()), nil, eMsg)
